@@ -178,7 +178,7 @@ def emit_run(tier, seed, d, prior=0):
 # harness (one per top-level item, keyed by what the item is; `use`/`mod` lines as sorted sets; lint attributes dropped;
 # the exact whole file is the section `*`). A disagreement between the model's predicted section and the implementation's
 # outside this view does not touch the property's theorems: it is counted in the evidence (`disagreements_outside_view`)
-# and judged by the properties whose view it falls in (C02 sees every file exactly).
+# and judged by the properties whose view it falls in (C02 sees every item of every file).
 CASE_DIS = {}      # case id -> section-level disagreements of the last emit_run
 OUTCOME_DIS = set()  # case ids whose generation outcome differs between model and implementation
 ITEM = r'^(?!\*$).'    # any item section, not the whole-file section
@@ -193,7 +193,7 @@ def V(*pats, docs=False, presence=False, docs_lines_only=False):
 
 VIEW = {
     'C01': V(presence=True),                                                        # outcome and the set of files
-    'C02': V(('.*', r'\*$'), docs=True, presence=True),                              # every file, exactly
+    'C02': V(('.*', ITEM), presence=True),                                          # every item of every file (rustc does not see item order, comments or lint attributes)
     'C03': V((OPFILE, r'(struct |impl )'), (r'src/lib\.rs', r'(struct FluentRequest|struct \w+Client$|impl \w+Client)')),
     'C04': V((MODELFILE, r'(struct |enum |type |impl .*(Serialize|Deserialize|Display|FromStr|Deref))'), (r'src/serde\.rs', ITEM)),
     'C05': V((OPFILE, r'(struct |impl )')),
